@@ -97,8 +97,8 @@ Theorem validated_call_binds : forall pp is_call orc passages,
   NoDup (map pname (params tp)) ->
   forall ctx pos kws dup missing,
   o_args orc ctx args = Ok (pos, kws) ->
-  bind_arguments_g orc dup missing ctx (params tp) (number_args 0 pos ++ kws) 0 [] =
-  bind_arguments orc ctx (params tp) (number_args 0 pos ++ kws) 0 [].
+  bind_arguments_g orc dup missing ctx (params tp) (args_dict pos kws) 0 [] =
+  bind_arguments orc ctx (params tp) (args_dict pos kws) 0 [].
 Proof. exact validated_call_binds_lemma. Qed.
 Print Assumptions validated_call_binds.
 
@@ -112,7 +112,7 @@ Theorem validated_call_fails_only_in_a_default : forall pp is_call orc passages,
   NoDup (map pname (params tp)) ->
   forall ctx pos kws e,
   o_args orc ctx args = Ok (pos, kws) ->
-  bind_arguments orc ctx (params tp) (number_args 0 pos ++ kws) 0 [] = Exc e ->
+  bind_arguments orc ctx (params tp) (args_dict pos kws) 0 [] = Exc e ->
   exists q d acc, In q (params tp) /\ pdefault q = Some d /\ o_eval orc (update ctx acc) d = Exc e.
 Proof. exact validated_call_fails_only_in_a_default_lemma. Qed.
 Print Assumptions validated_call_fails_only_in_a_default.
@@ -127,7 +127,7 @@ Theorem validated_call_binds_when_defaults_evaluate : forall pp is_call orc pass
   forall ctx pos kws,
   o_args orc ctx args = Ok (pos, kws) ->
   (forall q d acc, In q (params tp) -> pdefault q = Some d -> exists v, o_eval orc (update ctx acc) d = Ok v) ->
-  exists pv, bind_arguments orc ctx (params tp) (number_args 0 pos ++ kws) 0 [] = Ok pv.
+  exists pv, bind_arguments orc ctx (params tp) (args_dict pos kws) 0 [] = Ok pv.
 Proof. exact validated_call_binds_when_defaults_evaluate_lemma. Qed.
 Print Assumptions validated_call_binds_when_defaults_evaluate.
 
@@ -165,7 +165,7 @@ Print Assumptions validated_engine_dict_binds.
 Theorem distinct_parameter_names_needed :
   validate_single_call one_arg_pp (fun _ => true) dup_sig_passages "T" "1" = POk tt /\
   shape_agrees one_arg_pp one_arg_orc /\
-  bind_arguments one_arg_orc [] [mkParam "a" None; mkParam "a" None] (number_args 0 [VInt 1] ++ []) 0 []
+  bind_arguments one_arg_orc [] [mkParam "a" None; mkParam "a" None] (args_dict [VInt 1] []) 0 []
   = Exc ValueError.
 Proof. exact distinct_names_needed. Qed.
 Print Assumptions distinct_parameter_names_needed.
@@ -188,8 +188,8 @@ Theorem compiled_jump_site_binds : forall pp is_call xs lines0 story,
   forall pid p tg a, get_passage story pid = Some p -> passage_jump p tg a ->
   exists tp, get_passage story tg = Some tp /\
     forall ctx pos kws dup missing, o_args orc ctx a = Ok (pos, kws) ->
-      bind_arguments_g orc dup missing ctx (params tp) (number_args 0 pos ++ kws) 0 [] =
-      bind_arguments orc ctx (params tp) (number_args 0 pos ++ kws) 0 [].
+      bind_arguments_g orc dup missing ctx (params tp) (args_dict pos kws) 0 [] =
+      bind_arguments orc ctx (params tp) (args_dict pos kws) 0 [].
 Proof. exact parse_ok_jump_site_binds_lemma. Qed.
 Print Assumptions compiled_jump_site_binds.
 
@@ -202,8 +202,8 @@ Theorem compiled_offered_choice_binds : forall pp is_call xs lines0 story,
   ch_target (rc_choice rc) <> "@join"%string ->
   exists tp, get_passage story (ch_target (rc_choice rc)) = Some tp /\
     forall ctx pos kws dup missing, o_args orc ctx (ch_args (rc_choice rc)) = Ok (pos, kws) ->
-      bind_arguments_g orc dup missing ctx (params tp) (number_args 0 pos ++ kws) 0 [] =
-      bind_arguments orc ctx (params tp) (number_args 0 pos ++ kws) 0 [].
+      bind_arguments_g orc dup missing ctx (params tp) (args_dict pos kws) 0 [] =
+      bind_arguments orc ctx (params tp) (args_dict pos kws) 0 [].
 Proof. exact parse_ok_offered_choice_binds_lemma. Qed.
 Print Assumptions compiled_offered_choice_binds.
 
@@ -214,7 +214,7 @@ Theorem compiled_offered_choice_fails_only_in_a_default : forall pp is_call xs l
   ch_target (rc_choice rc) <> "@join"%string ->
   exists tp, get_passage story (ch_target (rc_choice rc)) = Some tp /\
     forall ctx pos kws x, o_args orc ctx (ch_args (rc_choice rc)) = Ok (pos, kws) ->
-      bind_arguments orc ctx (params tp) (number_args 0 pos ++ kws) 0 [] = Exc x ->
+      bind_arguments orc ctx (params tp) (args_dict pos kws) 0 [] = Exc x ->
       exists q d acc, In q (params tp) /\ pdefault q = Some d /\ o_eval orc (update ctx acc) d = Exc x.
 Proof. exact parse_ok_offered_choice_fails_only_in_a_default_lemma. Qed.
 Print Assumptions compiled_offered_choice_fails_only_in_a_default.
@@ -333,7 +333,7 @@ Theorem validated_call_positional_prefix : forall pp is_call orc passages,
   String.eqb tg "@join" = false -> lookup tg passages = Some tp ->
   forall ctx pos kws,
   params tp <> [] -> unreserved (map pname (params tp)) -> o_args orc ctx args = Ok (pos, kws) ->
-  positional_prefix (number_args 0 pos ++ kws) (List.length pos).
+  positional_prefix (args_dict pos kws) (List.length pos).
 Proof. exact validated_call_positional_prefix_lemma. Qed.
 Print Assumptions validated_call_positional_prefix.
 
@@ -346,9 +346,9 @@ Theorem validated_call_binds_like_python : forall pp is_call orc passages,
   sig_ok (params tp) ->
   forall ctx pos kws,
   o_args orc ctx args = Ok (pos, kws) ->
-  bind_arguments orc ctx (params tp) (number_args 0 pos ++ kws) 0 [] = py_call orc ctx (params tp) pos kws /\
-  bind_arguments orc ctx (params tp) (number_args 0 pos ++ kws) 0 [] =
-    py_bind orc ctx (params tp) (number_args 0 pos ++ kws).
+  bind_arguments orc ctx (params tp) (args_dict pos kws) 0 [] = py_call orc ctx (params tp) pos kws /\
+  bind_arguments orc ctx (params tp) (args_dict pos kws) 0 [] =
+    py_bind orc ctx (params tp) (args_dict pos kws).
 Proof. exact validated_call_binds_like_python_lemma. Qed.
 Print Assumptions validated_call_binds_like_python.
 
@@ -360,7 +360,7 @@ Theorem validated_engine_dict_binds_like_python : forall pp is_call orc passages
   String.eqb tg "@join" = false -> lookup tg passages = Some tp ->
   forall ctx ad,
   sig_ok (params tp) -> engine_arg_dict orc ctx args = Ok ad ->
-  exists pos kws, ad = number_args 0 pos ++ kws /\
+  exists pos kws, ad = args_dict pos kws /\
     bind_arguments orc ctx (params tp) ad 0 [] = py_call orc ctx (params tp) pos kws /\
     bind_arguments orc ctx (params tp) ad 0 [] = py_bind orc ctx (params tp) ad.
 Proof. exact validated_engine_dict_binds_like_python_lemma. Qed.
@@ -371,7 +371,7 @@ Print Assumptions validated_engine_dict_binds_like_python.
 Theorem unreserved_parameter_names_needed :
   validate_single_call one_arg_pp (fun _ => true) marker_sig_passages "T" "1" = POk tt /\
   shape_agrees one_arg_pp five_orc /\ NoDup (map pname marker_sig) /\
-  bind_arguments five_orc [] marker_sig (number_args 0 [VInt 1] ++ []) 0 [] =
+  bind_arguments five_orc [] marker_sig (args_dict [VInt 1] []) 0 [] =
     Ok [("a"%string, VInt 1); ("arg_0"%string, VInt 1)] /\
   py_call five_orc [] marker_sig [VInt 1] [] = Ok [("a"%string, VInt 1); ("arg_0"%string, VInt 5)].
 Proof. exact unreserved_names_needed. Qed.
@@ -387,9 +387,9 @@ Theorem compiled_jump_site_binds_like_python : forall pp is_call xs lines0 story
   forall pid p tg a, get_passage story pid = Some p -> passage_jump p tg a ->
   exists tp, get_passage story tg = Some tp /\
     forall ctx pos kws, o_args orc ctx a = Ok (pos, kws) ->
-      bind_arguments orc ctx (params tp) (number_args 0 pos ++ kws) 0 [] = py_call orc ctx (params tp) pos kws /\
-      bind_arguments orc ctx (params tp) (number_args 0 pos ++ kws) 0 [] =
-        py_bind orc ctx (params tp) (number_args 0 pos ++ kws).
+      bind_arguments orc ctx (params tp) (args_dict pos kws) 0 [] = py_call orc ctx (params tp) pos kws /\
+      bind_arguments orc ctx (params tp) (args_dict pos kws) 0 [] =
+        py_bind orc ctx (params tp) (args_dict pos kws).
 Proof. exact parse_ok_jump_site_binds_like_python_lemma. Qed.
 Print Assumptions compiled_jump_site_binds_like_python.
 
@@ -401,9 +401,9 @@ Theorem compiled_offered_choice_binds_like_python : forall pp is_call xs lines0 
   ch_target (rc_choice rc) <> "@join"%string ->
   exists tp, get_passage story (ch_target (rc_choice rc)) = Some tp /\
     forall ctx pos kws, o_args orc ctx (ch_args (rc_choice rc)) = Ok (pos, kws) ->
-      bind_arguments orc ctx (params tp) (number_args 0 pos ++ kws) 0 [] = py_call orc ctx (params tp) pos kws /\
-      bind_arguments orc ctx (params tp) (number_args 0 pos ++ kws) 0 [] =
-        py_bind orc ctx (params tp) (number_args 0 pos ++ kws).
+      bind_arguments orc ctx (params tp) (args_dict pos kws) 0 [] = py_call orc ctx (params tp) pos kws /\
+      bind_arguments orc ctx (params tp) (args_dict pos kws) 0 [] =
+        py_bind orc ctx (params tp) (args_dict pos kws).
 Proof. exact parse_ok_offered_choice_binds_like_python_lemma. Qed.
 Print Assumptions compiled_offered_choice_binds_like_python.
 
@@ -416,7 +416,7 @@ Theorem compiled_offered_choice_argument_dict : forall pp is_call xs lines0 stor
   exists tp, get_passage story (ch_target (rc_choice rc)) = Some tp /\
     forall ctx pos kws, params tp <> [] -> o_args orc ctx (ch_args (rc_choice rc)) = Ok (pos, kws) ->
       NoDup (map fst kws) /\ (forall k v, In (k, v) kws -> lookup k kws = Some v) /\
-      positional_prefix (number_args 0 pos ++ kws) (List.length pos).
+      positional_prefix (args_dict pos kws) (List.length pos).
 Proof. exact parse_ok_offered_choice_dict_lemma. Qed.
 Print Assumptions compiled_offered_choice_argument_dict.
 
@@ -435,10 +435,12 @@ Definition ex_table (a : string) : option (list value * list (string * value)) :
   else if String.eqb a "1, p=2" then Some ([VInt 1], [("p", VInt 2)])
   else if String.eqb a "q=5" then Some ([], [("q", VInt 5)])
   else if String.eqb a "p=1, p=2" then Some ([], [("p", VInt 1); ("p", VInt 2)])
+  else if String.eqb a "1, arg_0=2" then Some ([VInt 1], [("arg_0", VInt 2)])
   else None.
 Definition ex_pp : pyparse :=
   mkPyparse (fun _ => true)
-            (fun a => match ex_table a with Some (pos, kws) => Some (List.length pos, map fst kws) | None => None end).
+            (fun a => match ex_table a with Some (pos, kws) => Some (List.length pos, map fst kws) | None => None end)
+            (fun _ => 0).
 Definition ex_orc : pyorc :=
   mkOrc (fun ctx code => if String.eqb code "p + 1"
                          then match lookup "p" ctx with Some (VInt n) => Ok (VInt (n + 1)) | _ => Exc NameError end
@@ -452,7 +454,7 @@ Definition ex_passages : list (string * passage) := [("T", ex_T)].
 Definition ex_validate (a : string) : pres unit := validate_single_call ex_pp (fun _ => true) ex_passages "T" a.
 Definition ex_bind (a : string) : res env :=
   match o_args ex_orc [] a with
-  | Ok (pos, kws) => bind_arguments ex_orc [] (params ex_T) (number_args 0 pos ++ kws) 0 []
+  | Ok (pos, kws) => bind_arguments ex_orc [] (params ex_T) (args_dict pos kws) 0 []
   | Exc e => Exc e
   end.
 
@@ -494,11 +496,17 @@ Proof. split; vm_compute; reflexivity. Qed.
 Example ex_missing_all : ex_validate "" = PDiag (DSyntax "call:missing-required" 0) /\ ex_bind "" = Exc ValueError.
 Proof. split; vm_compute; reflexivity. Qed.
 
-(* a repeated keyword (fix F07e): rejected as malformed arguments; the model engine would have bound the first
-   value, the real engine's dict the last *)
+(* a repeated keyword (fix F07e): rejected as malformed arguments; the engine, given the call all the same (the host
+   application's goto("T(p=1, p=2)")), binds the LAST value -- its argument dict is one dict (Engine.args_dict) *)
 Example ex_repeated_keyword : ex_validate "p=1, p=2" = PDiag (DSyntax "call:malformed-arguments" 0) /\
-                              ex_bind "p=1, p=2" = Ok [("p", VInt 1); ("q", VInt 2)].
+                              ex_bind "p=1, p=2" = Ok [("p", VInt 2); ("q", VInt 3)].
 Proof. split; vm_compute; reflexivity. Qed.
+(* a keyword named like a positional marker: no parameter has such a name (fix F07d), so the validator refuses it as
+   an unknown keyword; the engine, given goto("T(1, arg_0=2)"), overwrites the entry of the first positional value *)
+Example ex_marker_keyword : ex_validate "1, arg_0=2" = PDiag (DSyntax "call:unknown-keyword" 0) /\
+                            args_dict [VInt 1] [("arg_0", VInt 2)] = [("arg_0", VInt 2)] /\
+                            ex_bind "1, arg_0=2" = Ok [("p", VInt 2); ("q", VInt 3)].
+Proof. repeat split; vm_compute; reflexivity. Qed.
 (* the accepted shapes bind as py_call says, read off the call itself *)
 Example ex_py_call : py_call ex_orc [] (params ex_T) [VInt 1] [("q", VInt 5)] = ex_bind "1, q=5" /\
                      py_call ex_orc [] (params ex_T) [] [("q", VInt 5); ("p", VInt 1)] = ex_bind "q=5, p=1" /\
@@ -594,7 +602,7 @@ Print Assumptions extractor_tokens_are_balanced.
 
 Theorem balanced_extractor_tokens_needed :
   exists story,
-    parse (mkPyparse (fun _ => true) (fun _ => Some (2, []))) (fun _ => true) bad_extractors
+    parse (mkPyparse (fun _ => true) (fun _ => Some (2, [])) (fun _ => 0)) (fun _ => true) bad_extractors
           [":: Start"; "@if x:"; ":: T(a, b)"; "hi"] = POk story /\
     ~ story_specs_roundtrip story.
 Proof. exact balanced_extractors_needed. Qed.
